@@ -25,6 +25,7 @@
 (*   der      sigdecode_der(blob, mode)         -> (r, s) / refused / raised    *)
 (*   derenc   sigencode_der(r, s)               -> blob                         *)
 (*   wifp     parse.wif of an arbitrary payload                                 *)
+(*   pub      Key(public_pair = v) / network.keys.public(v), v in any carrier   *)
 EXTENDS KeyEnc, DerSig, Json, IOUtils, TLCExt
 
 Traces == JsonDeserialize(IOEnv.TRACE_FILE)
@@ -149,7 +150,14 @@ TWifP == /\ Is("wifp")
             /\ r.ok => Cur.se = r.se /\ Cur.comp = r.compressed
          /\ UNCHANGED ks /\ Advance
 
-TNext == TNew \/ TWif \/ TParse \/ TSecEnc \/ TFromSec \/ TIdent
+\* a public point offered to Key(public_pair = ..) / network.keys.public(..) in some representation
+\* (rep: tuple, list, point object of this or another curve - logged, and irrelevant to the verdict)
+TPub == /\ Is("pub")
+        /\ ~PubSilentF(Cur.f) => Cur.ok = PubOkF(Cur.f)
+        /\ ~Cur.ok => Cur.exc = "InvalidPublicPairError"        \* the documented error
+        /\ UNCHANGED ks /\ Advance
+
+TNext == TPub \/ TNew \/ TWif \/ TParse \/ TSecEnc \/ TFromSec \/ TIdent
          \/ TSec \/ TSecF \/ TToyKey \/ TDer \/ TDerEnc \/ TWifP
 TSpec == TInit /\ [][TNext]_tvars
 
